@@ -6,12 +6,18 @@
 -/
 import Driver.Common
 import Driver.Parser
+import Driver.Path
+import Driver.Annotations
+import Driver.Names
 open Lean
 
 def dispatch (j : Json) : Except String Json := do
   let stream ← (← j.getObjVal? "stream").getStr?
   match stream with
   | "parser" => Driver.Parser.handle j
+  | "path" => Driver.Path.handle j
+  | "annot" => Driver.Annotations.handle j
+  | "names" => Driver.Names.handle j
   | _ => throw s!"unknown stream {stream}"
 
 partial def loop (hin hout : IO.FS.Stream) : IO Unit := do
